@@ -96,7 +96,7 @@ ASSUME Part = "match" => PrintT(<<"HOSTS", ToJson(HostSeq)>>)
 NoneV == "-"
 Get(v, job) == CASE v = "@state" -> job.state [] v = "@name" -> job.name [] OTHER -> job.tags[v]
 (* pattern -> values matched at their start (re.match); the driver re-derives this table with Python's re *)
-ReTable == ("a" :> {"ab"}) @@ ("^1$" :> {"1"}) @@ ("task" :> {"task.a"})
+ReTable == ("a" :> {"ab"}) @@ ("^1$" :> {"1"}) @@ ("task" :> {"task.a"}) @@ ("\\d" :> {"1", "2"}) @@ ("task\\.a$" :> {"task.a"})
 Atom(a, job) ==
   CASE a[1] = "eq" -> Get(a[2], job) = a[3]                       \* var = "constant"
     [] a[1] = "eqv" -> Get(a[2], job) = Get(a[3], job)            \* var = var
@@ -114,7 +114,8 @@ Eval(f, job) == Chain(Atom(f[1], job), Tail(f), job)   \* f = <<atom, <<op, atom
 
 Atoms == {<<"eq", "x", "1">>, <<"eq", "y", "ab">>, <<"eq", "@state", "DONE">>, <<"eq", "@name", "task.a">>, <<"eqv", "x", "y">>,
           <<"in", "x", {"1", "2"}>>, <<"in", "@state", {"ERROR", "RUNNING"}>>, <<"notin", "x", {"1"}>>, <<"notin", "y", {"ab", "2"}>>,
-          <<"re", "y", "a">>, <<"re", "x", "^1$">>, <<"re", "@name", "task">>}
+          <<"re", "y", "a">>, <<"re", "x", "^1$">>, <<"re", "@name", "task">>,
+          <<"re", "x", "\\d">>, <<"re", "@name", "task\\.a$">>}          \* regular expressions with escapes
 Filters == {<<a>> : a \in Atoms} \cup {<<a, <<o, b>>>> : a, b \in Atoms, o \in {"and", "or"}}
              \cup {<<a, <<o, b>>, <<p, c>>>> : a \in Atoms, b \in {<<"eq", "y", "ab">>, <<"in", "x", {"1", "2"}>>, <<"notin", "x", {"1"}>>},
                                               c \in {<<"eq", "@state", "DONE">>, <<"re", "y", "a">>, <<"eq", "x", "1">>}, o, p \in {"and", "or"}}
